@@ -29,7 +29,8 @@ Bs   == B(1, 2, 0, 1, 0)
 Bl   == B(1, 2, 1, 0, 0)
 Bp3  == B(1, 1, 0, 1, 0)
 Bp3d == B(1, 1, 1, 0, 0)
-Blt  == B(2, 2, 1, 1, 0)
+Blt  == B(1, 2, 1, 1, 0)
+Bpushq == B(1, 1, 1, 0, 0)
 Bpush == B(1, 2, 1, 1, 0)
 Bg   == B(3, 4, 1, 2, 1)
 Bg3  == B(4, 5, 2, 2, 1)
@@ -37,4 +38,5 @@ DevExists   == {"NoExistsCheck"}
 DevFilter   == {"NoFilter"}
 DevRemoved  == {"NoRemovedPush"}
 DevObserver == {"NoObserver"}
+DevFill     == {"FillBeforeSubscribe"}
 =============================================================================
